@@ -195,6 +195,30 @@ def run(ctx):
                 ctx.count('purge:other_entry:%s' % ('empty' if not (mid['sig'].get(app) or {}).get('models') else 'models'))
                 if after['sig'].get(app) != mid['sig'].get(app):
                     ctx.fail(None, 'after --purge the signature entries of %s changed' % app, rep)
+            # a stale app whose entry is already empty (it deleted its own models before it was uninstalled): a
+            # purge removes the entry all the same, and nothing else
+            from django_evolution.models import Version
+            from django_evolution.signature import AppSignature
+            v = Version.objects.current_version()
+            s2 = v.signature
+            s2.add_app_sig(AppSignature(app_id='zapp'))
+            v.signature = s2
+            v.save()
+            mid2 = state()
+            r = evorig.run_command(execute=True, interactive=False, purge=True)
+            ctx.count('purge_empty_stale_entry:%s' % r[0])
+            if r[0] != 'ok':
+                ctx.fail(None, 'evolve --purge of a stale app with an empty entry fails: %s' % str(r[1])[:160],
+                         dict(rep, mode='purge of an empty stale entry'))
+            else:
+                after3 = state()
+                compare(mid2, after3, [], rep, ctx, 'evolve --purge of a stale app with an empty entry')
+                if 'zapp' in after3['sig']:
+                    ctx.fail(None, 'after --purge the empty entry of the stale app zapp is still in the stored signature',
+                             dict(rep, mode='purge of an empty stale entry'))
+                for app in sorted((set(mid2['sig']) | set(after3['sig'])) - {'zapp'}):
+                    if after3['sig'].get(app) != mid2['sig'].get(app):
+                        ctx.fail(None, 'after --purge (empty stale entry) the signature entries of %s changed' % app, rep)
         else:
             vapp = spec['apps'][0]
             referenced = set(f['related'].split('.')[1] for a in spec['apps'] for m in a['models']
